@@ -120,6 +120,11 @@ Constructed(d, E2, I2, orph, keep) ==
 MinimalChange(d, d2) == [upd |-> {<<l, d2[l]>> : l \in {m \in DOMAIN d2 : Get(d, m) # d2[m]}},
                          del |-> (DOMAIN d) \ (DOMAIN d2)]
 
+\* history of managed leaves after an applied transaction: everything some live or former intent
+\* defined, except leaves whose last definer was orphan-deleted and that stayed on the device
+\* (they are unmanaged device content from then on)
+EverAfter(E, I, R, I2, d2) == (E \cup LeavesOf(I2)) \ {l \in Orphaned(I, R) : l \notin LeavesOf(I2) /\ l \in DOMAIN d2}
+
 \* ---- cache Modify model (sdcio/cache as used): intended entries are keyed by (owner, priority, path)
 \* m = [o, p, del : set of leaves, upd : set of <<l, v>>]; deletes first, then writes
 IntendedAfterMod(I, m) ==
